@@ -423,13 +423,40 @@ def protocol_side(facts):
     out.append(('acquire_after_last_decrement', P.get('acq_ord') in ('Acq', 'AcqRel', 'SC') and bool(P.get('drop_shape')), '%s ordering: %s' % (P.get('acq_kind'), P.get('acq_ord'))))
     return out
 
+def cow_side(facts):
+    PT = facts.get('pointers') or {}
+    return [('uniqueness_and_copy_on_write_functions_are_the_modelled_ones', bool((PT.get('forms') or {}).get('cow')),
+             'functions differing from the bodies Mech.v was written against: %s' % PT.get('diffs'))]
+
 def uniq_side(facts):
     P = facts.get('protocol') or {}
     return [('uniqueness_test_is_acquire', P.get('uniq_ord') in ('Acq', 'AcqRel', 'SC') and bool(P.get('uniq_shape')),
              'is_unique -> count -> load ordering: %s' % P.get('uniq_ord'))]
 
+def search_progs(facts, tier):
+    """bounded exploration of the counter protocol AS WRITTEN (ConcX.v, programs translated from the source)"""
+    import countprogs, re
+    CP = facts.get('count_progs') or {}
+    if not CP or all(CP.get(k) == countprogs.GOOD[k] for k in ('drop', 'uniq', 'uoc')): return None
+    if any('IUnknown' in CP.get(k, ['IUnknown']) for k in ('drop', 'uniq', 'uoc')): return None
+    d2, d3 = (10, 8) if tier != 'thorough' else (11, 9)
+    body = ('From Coq Require Import List. Import ListNotations.\nFrom TV Require Import Layout SrcFacts Conc ConcX Extracted.\n'
+            'Eval vm_compute in (match xexplore Extracted.count_progs 2 %d xinit [] with Some w => Some w | None => xexplore Extracted.count_progs 3 %d xinit [] end).\n' % (d2, d3))
+    rc, out = vlib.coq_eval(body, 'xexplore', timeout=1500)
+    if rc != 0: return None
+    txt = ' '.join(out.split())
+    m = re.search(r'Some\s*\[([^\]]*)\]', txt)
+    if not m: return None
+    sched = [x.strip() for x in m.group(1).split(';') if x.strip()]
+    return dict(description='the counter protocol as written in the source (drop_inner = %s; try_unique = %s; unwrap_or_clone, not unique = %s) has a schedule ending in a data race, an access after free, a double destroy/free or a lost value: %s'
+                % (CP['drop'], CP['uniq'], CP['uoc'], '; '.join(sched)),
+                payload=dict(kind='model-counterexample', model='coq/theories/ConcX.v', programs=CP, schedule=sched,
+                             replay='Eval vm_compute in option_map bad (xexec Extracted.count_progs xinit [%s])' % '; '.join(sched)))
+
 def search_conc(facts, tier, rng):
     """bounded exploration of the extracted-configuration machine for a racy schedule (search only)"""
+    found = search_progs(facts, tier)
+    if found: return found
     depth2, depth3 = (9, 7) if tier != 'thorough' else (10, 8)
     body = ('From Coq Require Import List. Import ListNotations.\nFrom TV Require Import Layout SrcFacts Conc Extracted.\n'
             'Eval vm_compute in (explore Extracted.conc_cfg 2 %d cinit [], explore Extracted.conc_cfg 3 %d cinit []).\n' % (depth2, depth3))
@@ -454,7 +481,7 @@ CONC_ASSUME = MECH_ASSUME + ['the memory model is the promise-free view semantic
                              'real multi-threaded executions of the crate are not run by the quick check: the tie is the translated orderings and closed world plus the single-threaded atomic footprint of every call']
 
 def conc_prop(focuses, with_uniq):
-    P = mech_prop(focuses, extra_side=(lambda f: protocol_side(f) + (uniq_side(f) if with_uniq else [])), orderings=True)
+    P = mech_prop(focuses, extra_side=(lambda f: protocol_side(f) + ((uniq_side(f) + cow_side(f)) if with_uniq else [])), orderings=True)
     P['search'] = search_conc
     P['facts_view'] = facts_protocol
     P['assumptions'] = CONC_ASSUME
@@ -1182,6 +1209,8 @@ def gen_dpanic(tier, rng):
                 cases.append(('D%d' % n, [[20 + kind, ln, k]])); n += 1
     # the other owner is released DURING the payload's Clone inside unwrap_or_clone / make_mut / make_unique / OffsetArc::make_mut
     for j in range(0, 4): cases.append(('D%d' % n, [[40 + j, 0, 0]])); n += 1
+    # copy-on-write / unwrap_or_clone of a shared value whose type has no drop glue, is not Copy, and whose Clone is not a bitwise copy
+    for j in range(0, 4): cases.append(('D%d' % n, [[44 + j, 0, 0]])); n += 1
     for op in ([29, 1, 0], [20, 40, 0], [45, 1, 1], [40, 1, 0]): cases.append(('D%d' % n, [op])); n += 1
     return cases
 
@@ -1191,6 +1220,13 @@ def oracle_dpanic(ops, io, ctx):
     parts = ct_split(o)
     if len(parts) != 3: return 'malformed observation'
     d = parts[1]
+    if 44 <= op[0] < 48:
+        what = ['Arc::make_mut', 'OffsetArc::make_mut', 'Arc::make_unique', 'Arc::unwrap_or_clone'][op[0] - 44]
+        if len(parts[2]) < 4: return 'malformed observation'
+        calls, own, untouched, cnt = parts[2][:4]
+        if calls != 1 or own != 1: return '%s on a shared value without drop glue: Clone::clone was called %d times and the copy %s its result (the copy must be made with Clone)' % (what, calls, 'is' if own else 'is NOT')
+        if untouched != 1: return '%s on a shared value without drop glue: a write through the result is seen through the other owner' % what
+        return None
     if op[0] >= 40:
         what = ['unwrap_or_clone', 'make_mut', 'make_unique', 'OffsetArc::make_mut'][op[0] - 40] if op[0] < 44 else '?'
         if any(x in BAD_CT for x in d): return '%s with the other owner released during the clone: access to a dead value' % what
